@@ -65,10 +65,6 @@ func (h *runner) violation(line int, class, msg string) {
 func (h *runner) check(q query, phase string) {
 	c := h.c
 	want := oracle(q, h.d).text()
-	wantRaw := want
-	if q.maskedFill() {
-		wantRaw = oracleRaw(q, h.d).text()
-	}
 	// the reference evaluation in Go is itself compared with the Lean evaluator
 	c.Emit(fmt.Sprintf("q %s @ go-reference", q.opText()), want)
 	var first string
@@ -88,20 +84,6 @@ func (h *runner) check(q query, phase string) {
 		line := c.Emit(fmt.Sprintf("q %s @ %s %s ds=%d", q.opText(), cf.text(), phase, h.idx), got)
 		if got != "ans" {
 			nonEmpty = true
-		}
-		if q.maskedFill() { // known finding: the filled cells are judged on the answers as returned
-			if i == 0 {
-				first, firstLine = got, line
-			} else if got != first {
-				canonAgree = false
-			}
-			if raw.text() != wantRaw {
-				h.violation(line, classify(q, "spec"), fmt.Sprintf("ds=%d %s [%s %s] answers %s, the reference evaluation gives %s; data: %s; history: %s", h.idx, q.sql(), cf.text(), phase, clip(raw.text()), clip(wantRaw), clip(h.d.text()), h.d.history()))
-			}
-			if got != want {
-				h.violation(line, "", fmt.Sprintf("ds=%d %s [%s %s]: apart from the filled cells the answer is %s, the reference evaluation gives %s; data: %s; history: %s", h.idx, q.sql(), cf.text(), phase, clip(got), clip(want), clip(h.d.text()), h.d.history()))
-			}
-			continue
 		}
 		if i == 0 {
 			first, firstLine = got, line
@@ -188,12 +170,9 @@ func (d *dataset) history() string {
 }
 
 // classify names the finding class of a violation (known_findings.jsonl); "" = unclassified.
-//   fill-previous-multi : fill(previous) with several calls or a group-by tag (FillTransform
-//                         looks the previous value up by row position in the input chunk)
+// (The classes of this property are given where they are detected: equal-timestamps-order and
+// equal-timestamps-limit in check.)
 func classify(q query, kind string) string {
-	if q.agg && q.interval > 0 && q.fill == "previous" && (len(q.calls) > 1 || q.grp != "-") {
-		return "fill-previous-multi"
-	}
 	return ""
 }
 
